@@ -39,6 +39,7 @@ def check(prog, run):
     run.rule("R6", "AV1 / VP9 configuration record fields are values of the parsed configuration")
     run.rule("R7", "hvcC profile/tier/level bytes are bit-for-bit the SPS bytes they summarise (all 256 values of the extracted expression)")
     hvcc_profile_bytes(prog, run, "R7")
+    hvcc_profile_bytes_init(prog, run, "R7")
     run.rule("R9", "AV1 sequence-header parser == specification syntax (5.5.1-5.5.5): same bit widths in the same order and the same configuration values on every enumerated syntax path")
     av1_reader_rule(prog, run, "R9")
     run.rule("R10", "offset-passing header parsers (VP9): every read starts at the offset returned by the read before it (+k) on every path; no field is read from bytes another field consumed")
@@ -511,6 +512,33 @@ def hvcc_profile_bytes(prog, run, rule):
                   "hvcC byte %d is not the SPS byte %d bit for bit (%s)" % (off, want_k, ("reads %s[%s]; e.g. SPS byte 0x%02x -> 0x%02x" % (res[0], res[1], bad, res[2][bad])) if (res and bad is not None) else ("reads %s" % (res[:2],) if res else "expression not a function of one SPS byte: %s" % (L.show(ex)[:120] if ex else fv,))))
 
 
+def hvcc_profile_bytes_init(prog, run, rule):
+    """the same two bytes in the fragmented init segment's hvcC: each must be the SPS byte itself (`sps[k]` / `sps.get(k)..unwrap_or(d)`)"""
+    from . import c19
+    u = prog.lib
+    segs = _init(u)
+    if segs is None:
+        run.bad(rule, "init hvcC anchor", "init-segment production not derivable")
+        return
+    n = 0
+    for (p, b, c) in B.walk_boxes(segs):
+        if p[-1] != b"hvcC":
+            continue
+        for a in B.alternatives(b[2], B.facts_of(c)):
+            view, rest = B.byte_view(a)
+            n += 1
+            for off, want_k, what in ((1, 3, "general_profile_space/tier/profile_idc"), (12, 14, "general_level_idc")):
+                fv = B.field_value(view, off, 1)
+                src = c19._indexed_byte(fv[1][1]) if fv[0] == "expr" and fv[1][0] == "u8" else None
+                ok = src is not None and src[1] == want_k and "sps" in L.field_names(src[0])
+                run.check(ok, rule, "init hvcC@%d %s == SPS byte %d" % (off, what, want_k), "the SPS byte itself",
+                          "the init segment's hvcC byte %d (%s) is %s, not byte %d of the supplied SPS (ISO/IEC 14496-15 8.3.3.1.2: the general_* fields repeat the stream's profile_tier_level)" %
+                          (off, what, ("the constant 0x%s" % fv[1].hex()) if fv[0] == "const" else L.show(fv[1])[:100], want_k))
+            break
+    if not n:
+        run.bad(rule, "init hvcC anchor", "no hvcC box in the init-segment production")
+
+
 # ---- table-driven fields: the code's match table must be the specification's table -------------------------------------
 AAC_SFI = {96000: 0, 88200: 1, 64000: 2, 48000: 3, 44100: 4, 32000: 5, 24000: 6, 22050: 7, 16000: 8, 12000: 9, 11025: 10, 8000: 11, 7350: 12}   # ISO/IEC 14496-3 table 1.18
 
@@ -558,12 +586,13 @@ def aac_frequency_index_rule(prog, run, rule):
               "samplingFrequencyIndex differs from ISO/IEC 14496-3 table 1.18 for %s" % ", ".join("%s Hz: code %s, spec %s" % (k, got.get(k), AAC_SFI.get(k)) for k in diff), mir.loc_of(u.bodies[fns[0]]))
 
 
-AV1C_BITS = [("high_bitdepth", 0x40), ("twelve_bit", 0x20), ("monochrome", 0x10), ("chroma_subsampling_x", 0x08), ("chroma_subsampling_y", 0x04)]   # AV1-ISOBMFF 2.3.3
+AV1C_BITS = [("seq_tier", 0x80), ("high_bitdepth", 0x40), ("twelve_bit", 0x20), ("monochrome", 0x10), ("chroma_subsampling_x", 0x08), ("chroma_subsampling_y", 0x04)]   # AV1-ISOBMFF 2.3.3
 
 
 def av1c_flags_rule(prog, run, rule):
-    """av1C byte 2: high_bitdepth(1) twelve_bit(1) monochrome(1) chroma_subsampling_x(1) chroma_subsampling_y(1) chroma_sample_position(2)
-    and byte 1: seq_profile(3) seq_level_idx_0(5): evaluated from the extracted builder expression per configuration field"""
+    """av1C byte 2: seq_tier_0(1) high_bitdepth(1) twelve_bit(1) monochrome(1) chroma_subsampling_x(1) chroma_subsampling_y(1) chroma_sample_position(2)
+    and byte 1: seq_profile(3) seq_level_idx_0(5): evaluated from the extracted builder expression per configuration field, for the
+    progressive record and for the init segment's record"""
     u = prog.lib
     it = L.Interp(u)
     name = "muxer::mp4::build_av1c_box"
@@ -578,6 +607,22 @@ def av1c_flags_rule(prog, run, rule):
         return
     body = segs[0][2] if segs and segs[0][0] == "box" else []
     view, _ = B.byte_view(body)
+    _av1c_bytes(run, rule, "av1C", view)
+    init = _init(u)
+    found = False
+    for (p, b, c) in (B.walk_boxes(init) if init is not None else []):
+        if p[-1] == b"av1C":
+            for a in B.alternatives(b[2], B.facts_of(c)):
+                v2, _r = B.byte_view(a)
+                _av1c_bytes(run, rule, "init av1C", v2)
+                found = True
+                break
+    if not found:
+        run.bad(rule, "init av1C anchor", "no av1C box in the init-segment production")
+
+
+def _av1c_bytes(run, rule, label, view):
+    bases = []
 
     def ev(x, env):
         h = x[0]
@@ -585,7 +630,9 @@ def av1c_flags_rule(prog, run, rule):
             return int(x[1])
         if h == "bool":
             return int(bool(x[1]))
-        if h == "field" and x[1] == ("param", pname):
+        if h == "field":
+            if x[1] not in bases:
+                bases.append(x[1])
             return env.get(x[2], 0)
         if h == "bin":
             return _OPS[x[1]](ev(x[2], env), ev(x[3], env))
@@ -600,21 +647,24 @@ def av1c_flags_rule(prog, run, rule):
         fv = B.field_value(view, off, 1)
         ex = fv[1][1] if fv[0] == "expr" else None
         if ex is None:
-            run.bad(rule, "av1C@%d" % off, "byte %d of av1C is not a computed value: %s" % (off, fv))
+            run.bad(rule, "%s@%d" % (label, off), "byte %d of %s is not a computed value: %s" % (off, label, fv))
             continue
         try:
             if off == 2:
                 for fname, mask in AV1C_BITS:
                     got = ev(ex, {fname: 1}) & 0xFF
-                    run.check(got == mask, rule, "av1C@2 %s" % fname, "sets exactly bit 0x%02x" % mask, "configuration field `%s` alone sets av1C byte 2 to 0x%02x, the specification puts it at 0x%02x" % (fname, got, mask))
+                    run.check(got == mask, rule, "%s@2 %s" % (label, fname), "sets exactly bit 0x%02x" % mask, "configuration field `%s` alone sets %s byte 2 to 0x%02x, the specification puts it at 0x%02x" % (fname, label, got, mask))
                 got = [ev(ex, {"chroma_sample_position": v}) & 0xFF for v in range(4)]
-                run.check(got == [0, 1, 2, 3], rule, "av1C@2 chroma_sample_position", "low two bits", "chroma_sample_position 0..3 gives %s, expected [0, 1, 2, 3]" % got)
+                run.check(got == [0, 1, 2, 3], rule, "%s@2 chroma_sample_position" % label, "low two bits", "chroma_sample_position 0..3 gives %s, expected [0, 1, 2, 3]" % got)
+                got0 = ev(ex, {}) & 0xFF
+                run.check(got0 == 0, rule, "%s@2 all-zero configuration" % label, "0x00", "an all-zero configuration gives byte 2 = 0x%02x" % got0)
             else:
                 got = [(p, l, ev(ex, {"seq_profile": p, "seq_level_idx": l}) & 0xFF) for p in range(8) for l in range(32)]
                 bad = [(p, l, g) for (p, l, g) in got if g != ((p << 5) | l)]
-                run.check(not bad, rule, "av1C@1 seq_profile/seq_level_idx_0", "(profile << 5) | level for all 256 combinations", "av1C byte 1 for profile %s level %s is 0x%02x" % bad[0] if bad else "")
+                run.check(not bad, rule, "%s@1 seq_profile/seq_level_idx_0" % label, "(profile << 5) | level for all 256 combinations", "%s byte 1 for profile %s level %s is 0x%02x" % ((label,) + bad[0]) if bad else "")
         except (ValueError, KeyError) as e:
-            run.bad(rule, "av1C@%d evaluable" % off, "cannot evaluate the extracted expression: %s" % e)
+            run.bad(rule, "%s@%d evaluable" % (label, off), "cannot evaluate the extracted expression: %s" % e)
+    run.check(len(bases) == 1, rule, "%s one configuration" % label, "all fields are read from one parsed configuration", "the record's fields are read from %d different values" % len(bases))
 
 
 
